@@ -616,6 +616,13 @@ func apply(w0 *world, op Op) (outs []*world, expectErr bool) {
 		if i := A.find(name); i >= 0 && A.ents[i].sym != sym {
 			spellings = []bool{sym, !sym}
 		}
+		if mut && A.json && sym {
+			// UNSPECIFIED: a map decoded from JSON is a sorted-map like any
+			// other as to names, values, order and finite-map behaviour, but
+			// the spelling under which it PRESENTS a key written as a symbol
+			// is not stated (it keeps all its keys as strings)
+			spellings = []bool{true, false}
+		}
 		for _, sp := range spellings {
 			x := w.clone()
 			target := av
@@ -1021,17 +1028,6 @@ func describeOperand(w *world, op Op) string {
 		s = "json-" + s
 	}
 	return s
-}
-
-// usesSymbolKey: the operation names a map key spelled as a symbol.
-func (op Op) usesSymbolKey() bool {
-	switch op.K {
-	case "assoc", "assoc!", "dissoc", "dissoc!", "get", "assoc-same":
-		return mapKeys[op.I].sym
-	case "assoc!-store", "map-of":
-		return true
-	}
-	return false
 }
 
 var _ = fmt.Sprint
